@@ -225,7 +225,7 @@ class Ctx:
         equiv = {"unique_values": "Proofs/GenEquivUV", "data_preparation": "Proofs/GenEquivDP", "main_loop": "Proofs/GenEquivML",
                  "cluster_label_assignment": "Proofs/GenEquivLA", "solver": "Proofs/GenEquivSV", "cluster_metrics": "Proofs/GenEquivCM",
                  "solver_loop": "Proofs/GenEquivSL", "likelihood": "Proofs/GenEquivLK", "main_loop_results": "Proofs/GenEquivMR",
-                 "front_single": "Proofs/GenEquivFE", "front_joint": "Proofs/GenEquivFE",
+                 "front_single": "Proofs/GenEquivFE", "front_joint": "Proofs/GenEquivFE", "main_loop_suffix": "Proofs/GenEquivRS",
                  "cluster_maintenance": "Proofs/GenEquivCR", "graphical_lasso": "Proofs/GenEquivGL",
                  "matrix_compression": "Proofs/GenEquivMC", "model_state": "Proofs/GenEquivMS",
                  "gl_optimize": "Proofs/GenEquivGO", "gl_setup": "Proofs/GenEquivGO", "gl_retrieve": "Proofs/GenEquivGO", "gl_update": "Proofs/GenEquivGO"}
@@ -452,7 +452,16 @@ def strip_coq_comments(txt):
     depth = 0
     i = 0
     while i < len(txt):
-        if txt.startswith("(*", i):
+        if txt[i] == '"':
+            # string literal (Coq lexes them inside comments too): "(*" inside one does not open a comment
+            j = txt.find('"', i + 1)
+            j = len(txt) - 1 if j < 0 else j
+            if depth == 0:
+                out.append(txt[i:j + 1])
+            else:
+                out.append("\n" * txt.count("\n", i, j + 1))
+            i = j + 1
+        elif txt.startswith("(*", i):
             depth += 1
             i += 2
         elif txt.startswith("*)", i) and depth:
